@@ -8,13 +8,20 @@
      anc ds p c         p is a transitive parent of c in the declared graph
      build ds           _init_multicmd_parser on structured declarations
      init_multicmd      the same on the declaration strings '!name:parent, parent'
-     apply_ops nl st ops   add_argument calls; op = (TGlobal | TCmd p, KFlag | KPos, name)
+     apply_ops nl st ops   add_argument calls; op = (TGlobal | TCmd p, KFlag | KPos | KVal, name):
+                        '--name' store_true, 'name' nargs='*', '--name VALUE'
+     p_list k pa        the arguments of kind k that parser pa holds; is_optional k = k is not KPos
      in_scope ds t c    t = TGlobal, or t = TCmd p with c = p or anc ds p c
      parse_args sub ..  ArgParser.parse_args, [sub] = argparse for one command parser
      sub_spec sub       what is assumed of argparse; mini_sub = the stand-in compared
-                        with the real argparse on every run *)
+                        with the real argparse on every run
+     sub_spec_vec sub   the same for multi-token vectors  --f.. w.. --g..  (flags, one
+                        block of words for the nargs='*' positionals, flags)
+     added_flags ops l  every (t, o) of l was added by the call (t, KFlag, o) of ops
+     vec_tokens l       the tokens '--o' of l;  word w = w does not start with '-'
+     scopes_meet ds t t'   some declared parser is in scope of both targets *)
 From Coq Require Import ZArith List Bool.
-From AK Require Import gen.C19_Consts C19.Model C19.Lemmas C19.LemmasOps C19.LemmasParse C19.LemmasDecl.
+From AK Require Import gen.C19_Consts C19.Model C19.Lemmas C19.LemmasOps C19.LemmasParse C19.LemmasDecl C19.LemmasVec C19.LemmasDup.
 Import ListNotations.
 Open Scope Z_scope.
 
@@ -80,16 +87,16 @@ Print Assumptions dependents_are_descendants.
 
 (* ---- options -------------------------------------------------------- *)
 
-(* add_argument calls with distinct names (flags: not a standard option
-   string) on declared parsers or on the ArgParser never raise, and afterwards
-   the parser of c holds the option o iff the call that added o is in scope of c *)
+(* add_argument calls with distinct names (flags and value options: not a
+   standard option string) on declared parsers or on the ArgParser never raise,
+   and afterwards the parser of c holds the argument o (of any of the three
+   kinds) iff the call that added o is in scope of c *)
 Theorem option_scope_state : forall ds st nl ops,
   build ds = Ret st -> ops_ok ds nl ops ->
   exists st', apply_ops nl st ops = Ret st' /\ keys st' = names ds /\
     forall c pa, In (c, pa) st' ->
       (exists d, In d ds /\ d_name d = c /\ p_internal pa = d_internal d) /\
-      forall t k o, In (t, k, o) ops ->
-        (In o (match k with KFlag => p_flags pa | KPos => p_poss pa end) <-> in_scope ds t c).
+      forall t k o, In (t, k, o) ops -> (In o (p_list k pa) <-> in_scope ds t c).
 Proof. exact option_scope_state_l. Qed.
 Print Assumptions option_scope_state.
 
@@ -136,6 +143,105 @@ Theorem argparse_model_meets_spec : sub_spec mini_sub.
 Proof. exact mini_sub_spec. Qed.
 Print Assumptions argparse_model_meets_spec.
 
+(* ---- multi-token vectors and namespace contents ---------------------- *)
+
+(* the stand-in also meets the multi-token assumptions *)
+Theorem argparse_model_meets_vector_spec : sub_spec_vec mini_sub.
+Proof. exact mini_sub_spec_vec. Qed.
+Print Assumptions argparse_model_meets_vector_spec.
+
+(* "d --f1 .. --fk w1 .. wm --g1 .. --gj" (added flags, words) is accepted iff
+   EVERY flag was added to the ArgParser, to d or to a transitive parent of d
+   and, when there are words, some nargs='*' positional was *)
+Theorem option_scope_vector : forall sub, sub_spec_vec sub ->
+  forall ds c0 ops st' dflt d,
+  configured ds (c_no_log c0) ops st' ->
+  In d ds -> d_internal d = false -> starts_dash (d_name d) = false ->
+  forall tos1 ws tos2, added_flags ops (tos1 ++ tos2) -> Forall word ws ->
+  (accepted (parse_args sub c0 st' dflt (d_name d :: vec_tokens tos1 ++ ws ++ vec_tokens tos2)) <->
+   Forall (fun x => in_scope ds (fst x) (d_name d)) (tos1 ++ tos2) /\
+   (ws = [] \/ exists t p, In (t, KPos, p) ops /\ in_scope ds t (d_name d))).
+Proof. exact option_scope_vec_l. Qed.
+Print Assumptions option_scope_vector.
+
+(* ... and the namespace: command = d; its flag attributes are exactly the
+   flags in scope of d, True iff given; the words go to the first positional in
+   scope, the other positionals are empty; the value options in scope of d are
+   there with None; verbosity and colour at their defaults *)
+Theorem vector_namespace : forall sub, sub_spec_vec sub ->
+  forall ds c0 ops st' dflt d,
+  configured ds (c_no_log c0) ops st' ->
+  In d ds -> d_internal d = false -> starts_dash (d_name d) = false ->
+  forall tos1 ws tos2, added_flags ops (tos1 ++ tos2) -> Forall word ws ->
+  forall n, parse_args sub c0 st' dflt (d_name d :: vec_tokens tos1 ++ ws ++ vec_tokens tos2) = Ret n ->
+  ns_command n = d_name d /\
+  (forall o b, In (o, b) (ns_flags n) <->
+     (exists t, In (t, KFlag, o) ops /\ in_scope ds t (d_name d)) /\ b = mem o (map snd (tos1 ++ tos2))) /\
+  (ws <> [] -> exists p0 rest, ns_poss n = (p0, ws) :: rest /\
+     (exists t, In (t, KPos, p0) ops /\ in_scope ds t (d_name d)) /\ Forall (fun e => snd e = []) rest) /\
+  (forall o x, In (o, x) (ns_vals n) <->
+     (exists t, In (t, KVal, o) ops /\ in_scope ds t (d_name d)) /\ x = None) /\
+  ns_verbose n = (if c_no_log c0 then None else Some 0%nat) /\ ns_color n = CStr color_default.
+Proof. exact vec_namespace_l. Qed.
+Print Assumptions vector_namespace.
+
+(* options that take a value: "d --o VALUE" and "d --o=VALUE" are accepted iff
+   the call that added o is in scope of d, and the namespace holds VALUE for o
+   and None for the other value options in scope of d *)
+Theorem value_option_scope : forall sub, sub_spec_vec sub ->
+  forall ds c0 ops st' dflt d,
+  configured ds (c_no_log c0) ops st' ->
+  In d ds -> d_internal d = false -> starts_dash (d_name d) = false ->
+  forall t o v, In (t, KVal, o) ops -> ~ In ch_eq o -> word v ->
+  (accepted (parse_args sub c0 st' dflt [d_name d; flag_str o; v]) <-> in_scope ds t (d_name d)) /\
+  (forall n, parse_args sub c0 st' dflt [d_name d; flag_str o; v] = Ret n ->
+     ns_command n = d_name d /\
+     forall o' x, In (o', x) (ns_vals n) <->
+       (exists t', In (t', KVal, o') ops /\ in_scope ds t' (d_name d)) /\ x = (if str_eqb o' o then Some v else None)) /\
+  (plain_names ops ->
+   (accepted (parse_args sub c0 st' dflt [d_name d; flag_str o ++ ch_eq :: v]) <-> in_scope ds t (d_name d)) /\
+   (forall n, parse_args sub c0 st' dflt [d_name d; flag_str o ++ ch_eq :: v] = Ret n ->
+      ns_command n = d_name d /\
+      forall o' x, In (o', x) (ns_vals n) <->
+        (exists t', In (t', KVal, o') ops /\ in_scope ds t' (d_name d)) /\ x = (if str_eqb o' o then Some v else None))).
+Proof. exact value_option_scope_l. Qed.
+Print Assumptions value_option_scope.
+
+(* ---- add_argument that raises ----------------------------------------- *)
+
+(* the only exceptions: ValueError for a name get_cmd_parser does not know,
+   ArgumentError (argparse) for an argument with an option string *)
+Theorem add_argument_exceptions : forall nl (st : state) t k o e,
+  apply_op nl st (t, k, o) = Raise e ->
+  (e = ValueError /\ exists p, t = TCmd p /\ ~ In p (keys st)) \/ (e = ArgumentError /\ is_optional k = true).
+Proof. exact apply_op_raises. Qed.
+Print Assumptions add_argument_exceptions.
+
+Theorem get_cmd_parser_unknown_name : forall nl (st : state) p k o,
+  apply_op nl st (TCmd p, k, o) = Raise ValueError <-> ~ In p (keys st).
+Proof. exact get_cmd_parser_unknown. Qed.
+Print Assumptions get_cmd_parser_unknown_name.
+
+(* duplicated option strings: after the declarations and the calls [ops], adding
+   the option string '--o' (added before by the call on t, as a flag or as a
+   value option) once more on t' (as either) raises ArgumentError iff some
+   parser is in scope of both t and t'; otherwise the call returns *)
+Theorem duplicate_option_conflict : forall ds nl ops st' t k o t' k',
+  configured ds nl ops st' -> In (t, k, o) ops -> is_optional k = true -> is_optional k' = true -> target_ok ds t' ->
+  (scopes_meet ds t t' -> apply_op nl st' (t', k', o) = Raise ArgumentError) /\
+  (~ scopes_meet ds t t' -> exists st'', apply_op nl st' (t', k', o) = Ret st'') /\
+  (apply_op nl st' (t', k', o) = Raise ArgumentError <-> scopes_meet ds t t').
+Proof. exact duplicate_flag_l. Qed.
+Print Assumptions duplicate_option_conflict.
+
+(* the standard option strings cannot be added to any target *)
+Theorem std_option_conflict : forall ds nl ops st' k o t',
+  configured ds nl ops st' -> ds <> [] -> target_ok ds t' -> is_optional k = true ->
+  mem (flag_str o) (std_option_strings nl) = true ->
+  apply_op nl st' (t', k, o) = Raise ArgumentError.
+Proof. exact std_flag_conflict_l. Qed.
+Print Assumptions std_option_conflict.
+
 (* ---- default command ------------------------------------------------- *)
 
 (* without default_command= the default is the first command that is not an
@@ -168,12 +274,58 @@ Theorem default_command_subparse : forall (sub : subparser) c0 (st : state) d ar
   (forall a, hd_error argv = Some a -> ~ In a help_choices /\ ~ In a (keys st)) ->
   starts_dash d = false -> lookup d st = Some pa -> p_internal pa = false ->
   parse_args sub c0 st (Some d) argv =
-  match sub (c_no_log c0) (p_flags pa) (p_poss pa) argv with
+  match sub (c_no_log c0) (p_flags pa) (p_poss pa) (p_vals pa) argv with
   | Some s => Ret (finish c0 d s)
   | None => Raise SystemExit
   end.
 Proof. exact default_command_subparse_l. Qed.
 Print Assumptions default_command_subparse.
+
+(* the default command on vectors of added flags and words: accepted iff every
+   flag is in scope of the default command and (for words) it has a positional;
+   the namespace names the default command and its first positional takes the words *)
+Theorem default_command_vector : forall sub, sub_spec_vec sub ->
+  forall ds c0 ops st' d,
+  configured ds (c_no_log c0) ops st' ->
+  In d ds -> d_internal d = false -> starts_dash (d_name d) = false ->
+  forall tos1 ws tos2, added_flags ops (tos1 ++ tos2) -> Forall word ws ->
+  ~ (vec_tokens tos1 ++ ws ++ vec_tokens tos2 = [] /\ c_help_if_no_args c0 = true) ->
+  (forall a, hd_error (vec_tokens tos1 ++ ws ++ vec_tokens tos2) = Some a -> ~ In a (keys st')) ->
+  (accepted (parse_args sub c0 st' (Some (d_name d)) (vec_tokens tos1 ++ ws ++ vec_tokens tos2)) <->
+   Forall (fun x => in_scope ds (fst x) (d_name d)) (tos1 ++ tos2) /\
+   (ws = [] \/ exists t p, In (t, KPos, p) ops /\ in_scope ds t (d_name d))) /\
+  forall n, parse_args sub c0 st' (Some (d_name d)) (vec_tokens tos1 ++ ws ++ vec_tokens tos2) = Ret n ->
+    ns_command n = d_name d /\
+    (forall o b, In (o, b) (ns_flags n) <->
+       (exists t, In (t, KFlag, o) ops /\ in_scope ds t (d_name d)) /\ b = mem o (map snd (tos1 ++ tos2))) /\
+    (ws <> [] -> exists p0 rest, ns_poss n = (p0, ws) :: rest /\
+       (exists t, In (t, KPos, p0) ops /\ in_scope ds t (d_name d)) /\ Forall (fun e => snd e = []) rest).
+Proof. exact default_command_vec_l. Qed.
+Print Assumptions default_command_vector.
+
+(* the open finding delimited exactly.  (1) The property's own wording (guard:
+   not a COMMAND name) holds for every default command WITHOUT a positional: a
+   first argument that names an internal option set is rejected either way ... *)
+Theorem default_command_without_positional : forall sub, sub_spec_vec sub ->
+  forall c0 (st : state) d pa argv,
+  lookup d st = Some pa -> p_internal pa = false -> p_poss pa = [] -> starts_dash d = false ->
+  ~ (argv = [] /\ c_help_if_no_args c0 = true) ->
+  (forall a, hd_error argv = Some a ->
+     ~ In a help_choices /\ ~ In a (command_names st) /\ (In a (keys st) -> word a)) ->
+  parse_args sub c0 st (Some d) argv = parse_args sub c0 st (Some d) (d :: argv).
+Proof. exact default_no_positional_l. Qed.
+Print Assumptions default_command_without_positional.
+
+(* ... (2) and fails for EVERY default command with a nargs='*' positional and
+   every internal option set s, on the vector [s] *)
+Theorem default_internal_name_disagrees : forall sub, sub_spec_vec sub ->
+  forall c0 (st : state) d pa s ps,
+  lookup d st = Some pa -> p_internal pa = false -> p_poss pa <> [] -> starts_dash d = false ->
+  lookup s st = Some ps -> p_internal ps = true -> word s ->
+  parse_args sub c0 st (Some d) [s] = Raise SystemExit /\
+  accepted (parse_args sub c0 st (Some d) [d; s]).
+Proof. exact default_internal_name_disagrees_l. Qed.
+Print Assumptions default_internal_name_disagrees.
 
 (* the guard's complement is a defect of the current code (open finding
    default-internal-set-name): ArgParser([('ca', ..), ('!sa', ..)]),
@@ -245,3 +397,96 @@ Proof.
   - vm_compute. reflexivity.
 Qed.
 Print Assumptions diamond_configured.
+
+(* ---- non-vacuity of the vector and duplicate theorems ------------------- *)
+
+(* a takes the positional 'pa'; b has the value option '--vb' *)
+Definition ex_ops2 : list op := ex_ops ++ [(TCmd ex_a, KPos, [112; 97]); (TCmd ex_b, KVal, [118; 98])].
+Definition ex_vec (c : str) : list str :=
+  c :: vec_tokens [(TCmd ex_a, [111; 97])] ++ [[120]; [121]] ++ vec_tokens [(TCmd ex_b, [111; 98])].
+
+(* "d --oa x y --ob" is accepted with pa = [x, y]; "c --oa x y --ob" is not (ob
+   was added to b); the words alone go to the default command a *)
+Example diamond_vector :
+  exists st', configured ex_diamond false ex_ops2 st' /\
+    added_flags ex_ops2 ([(TCmd ex_a, [111; 97])] ++ [(TCmd ex_b, [111; 98])]) /\
+    Forall word [[120]; [121]] /\
+    (exists n, parse_args mini_sub (mkCfg false false false) st' (Some ex_a) (ex_vec ex_d) = Ret n /\
+       ns_poss n = [([112; 97], [[120]; [121]])] /\
+       ns_flags n = [([111; 97], true); ([111; 98], true); ([111; 103], false)]) /\
+    parse_args mini_sub (mkCfg false false false) st' (Some ex_a) (ex_vec ex_c) = Raise SystemExit /\
+    (exists n, parse_args mini_sub (mkCfg false false false) st' (Some ex_a) [[120]; [121]] = Ret n /\
+       ns_command n = ex_a /\ ns_poss n = [([112; 97], [[120]; [121]])]) /\
+    (* "d --vb x" and "d --vb=x" give vb = x; c does not have --vb *)
+    (exists n, parse_args mini_sub (mkCfg false false false) st' (Some ex_a) [ex_d; flag_str [118; 98]; [120]] = Ret n /\
+       ns_vals n = [([118; 98], Some [120])]) /\
+    (exists n, parse_args mini_sub (mkCfg false false false) st' (Some ex_a) [ex_d; flag_str [118; 98] ++ ch_eq :: [120]] = Ret n /\
+       ns_vals n = [([118; 98], Some [120])]) /\
+    parse_args mini_sub (mkCfg false false false) st' (Some ex_a) [ex_c; flag_str [118; 98]; [120]] = Raise SystemExit /\
+    plain_names ex_ops2.
+Proof.
+  eexists. split; [|split; [|split; [|split; [|split; [|split; [|split; [|split; [|split]]]]]]]].
+  - eexists. split; [vm_compute; reflexivity|]. split; [|vm_compute; reflexivity].
+    split.
+    + vm_compute. repeat constructor; intros H; repeat (destruct H as [H|H]; [discriminate|]); exact H.
+    + repeat constructor; try (vm_compute; auto; fail); intros _; vm_compute; reflexivity.
+  - repeat constructor; try (vm_compute; auto 10; fail);
+      intros H; repeat (destruct H as [H|H]; [discriminate|]); exact H.
+  - repeat constructor.
+  - eexists. split; [vm_compute; reflexivity|]. split; vm_compute; reflexivity.
+  - vm_compute. reflexivity.
+  - eexists. split; [vm_compute; reflexivity|]. split; vm_compute; reflexivity.
+  - eexists. split; vm_compute; reflexivity.
+  - eexists. split; vm_compute; reflexivity.
+  - vm_compute. reflexivity.
+  - repeat constructor; vm_compute; intros H; repeat (destruct H as [H|H]; [discriminate|]); exact H.
+Qed.
+Print Assumptions diamond_vector.
+
+(* duplicated option strings: in the diamond the scopes of b and c meet (in d),
+   and adding b's flag once more on c raises ... *)
+Example duplicate_scopes_meet :
+  scopes_meet ex_diamond (TCmd ex_b) (TCmd ex_c) /\
+  exists st', configured ex_diamond false ex_ops st' /\
+    apply_op false st' (TCmd ex_c, KFlag, [111; 98]) = Raise ArgumentError.
+Proof.
+  split.
+  - exists ex_d. split; [cbn; auto|].
+    split; right; apply anc_parent; exists (mkDecl ex_d false [ex_b; ex_c]); cbn; auto 6.
+  - eexists. split.
+    + eexists. split; [vm_compute; reflexivity|]. split; [|vm_compute; reflexivity].
+      split.
+      * vm_compute. repeat constructor; intros H; repeat (destruct H as [H|H]; [discriminate|]); exact H.
+      * repeat constructor; try (vm_compute; auto; fail); intros _; vm_compute; reflexivity.
+    + vm_compute. reflexivity.
+Qed.
+Print Assumptions duplicate_scopes_meet.
+
+(* ... while two unrelated commands may both have an option of the same name *)
+Definition ex_pair : list decl := [mkDecl ex_a false []; mkDecl ex_b false []].
+Definition ex_pair_ops : list op := [(TCmd ex_a, KFlag, [111; 97])].
+
+Example pair_configured :
+  exists st', configured ex_pair false ex_pair_ops st' /\
+    exists st'', apply_op false st' (TCmd ex_b, KFlag, [111; 97]) = Ret st''.
+Proof.
+  eexists. split.
+  - eexists. split; [vm_compute; reflexivity|]. split; [|vm_compute; reflexivity].
+    split.
+    + vm_compute. repeat constructor; intros H; repeat (destruct H as [H|H]; [discriminate|]); exact H.
+    + repeat constructor; try (vm_compute; auto; fail); intros _; vm_compute; reflexivity.
+  - eexists. vm_compute. reflexivity.
+Qed.
+Print Assumptions pair_configured.
+
+Example duplicate_scopes_disjoint : ~ scopes_meet ex_pair (TCmd ex_a) (TCmd ex_b).
+Proof.
+  destruct pair_configured as (st' & C & st'' & E). intros M.
+  destruct (duplicate_flag_l ex_pair false ex_pair_ops st' (TCmd ex_a) KFlag [111; 97] (TCmd ex_b) KFlag C) as (R & _).
+  - left. reflexivity.
+  - reflexivity.
+  - reflexivity.
+  - cbn. auto.
+  - rewrite (R M) in E. discriminate.
+Qed.
+Print Assumptions duplicate_scopes_disjoint.
